@@ -18,6 +18,59 @@ import (
 type bytesCase struct {
 	Hex  string `json:"hex"`
 	Unit string `json:"unit,omitempty"`
+	// Prev: inputs the exploring process ran through the same check before this one (oldest first).
+	// Present only in the case-with-context of a violation (mc.Violation.Alt): a failure that depends on
+	// state left behind by earlier calls (a pooled object, a memo keyed on the caller's buffer) does not
+	// show when the input is decoded alone in a fresh process. On replay they are run first, all in
+	// one buffer that is overwritten in place, as a caller with a read buffer would.
+	Prev []string `json:"prev_hex,omitempty"`
+}
+
+// histOK is set by the byte-input checks: the specification accepts (the metadata of) the input just judged.
+var histOK bool
+
+// byteHist remembers what a worker fed to a check before the current input: the last three
+// inputs and the last input the specification accepts.
+type byteHist struct {
+	ring   [3][]byte
+	lastOK []byte
+	cur    []byte
+	unit   string
+}
+
+// begin makes b the current input and installs the case-with-context provider.
+func (h *byteHist) begin(w *mc.W, b []byte, unit string) {
+	h.cur, h.unit = b, unit
+	w.SetAltCase(h.alt)
+}
+
+// end files the current input (ok: the specification accepts it).
+func (h *byteHist) end(ok bool) {
+	if len(h.cur) > 4096 {
+		*h = byteHist{}
+		return
+	}
+	c := append(h.ring[0][:0], h.cur...) // reuse the oldest copy's storage
+	h.ring[0], h.ring[1], h.ring[2] = h.ring[1], h.ring[2], c
+	if ok {
+		h.lastOK = append(h.lastOK[:0], h.cur...)
+	}
+}
+
+func (h *byteHist) alt() any {
+	var prev []string
+	if h.lastOK != nil {
+		prev = append(prev, hex.EncodeToString(h.lastOK))
+	}
+	for _, p := range h.ring {
+		if p != nil {
+			prev = append(prev, hex.EncodeToString(p))
+		}
+	}
+	if len(prev) == 0 {
+		return nil
+	}
+	return bytesCase{Hex: hex.EncodeToString(h.cur), Unit: h.unit, Prev: prev}
 }
 
 func mkBytesCase(b []byte, unit string) bytesCase {
@@ -115,11 +168,30 @@ func genUnitsC02(tier string) []gen.Unit {
 	return u
 }
 
-func bytesReplay(check func(w *mc.W, b []byte, unit string)) func(w *mc.W, data json.RawMessage) error {
+// bytesReplay: mk returns the check bound to fresh harness state; one replay uses one such state for the
+// inputs that preceded the case and for the case, as the exploring worker did.
+func bytesReplay(mk func() func(w *mc.W, b []byte, unit string)) func(w *mc.W, data json.RawMessage) error {
 	return func(w *mc.W, data json.RawMessage) error {
 		var cs bytesCase
 		if err := unmarshalCase(data, &cs); err != nil {
 			return err
+		}
+		check := mk()
+		if len(cs.Prev) > 0 {
+			n := len(cs.Hex) / 2
+			for _, p := range cs.Prev {
+				if len(p)/2 > n {
+					n = len(p) / 2
+				}
+			}
+			buf := make([]byte, n)
+			sw := w.Scratch()
+			for _, p := range cs.Prev {
+				pb, _ := hex.DecodeString(p)
+				check(sw, buf[:copy(buf, pb)], cs.Unit)
+			}
+			check(w, buf[:copy(buf, cs.bytes())], cs.Unit)
+			return nil
 		}
 		check(w, cs.bytes(), cs.Unit)
 		return nil
